@@ -390,18 +390,19 @@ theorem slot0_decode : decodeSlot slot0 = some
 theorem checkImage_null_roots (img : ByteArray) (ps : Nat) (h : Header) (slot : Slot)
     (hh : decodeHeader img = some h) (h1 : h.layout.pageSize = ps)
     (h2 : h.layout.regionMaxDataPages ≠ 0) (h3 : h.layout.numRegions ≠ 0)
-    (h4 : h.layout.fileLen = img.size) (h5 : slotChecksumOk h.primary = true)
+    (h4 : h.layout.fileLen ≤ img.size) (h5 : slotChecksumOk h.primary = true)
     (h6 : decodeSlot h.primary = some slot) (h7 : slot.version = 3)
     (h8 : slot.userRoot = none) (h9 : slot.systemRoot = none) :
     checkImage img ps [] = .ok () := by
-  simp [checkImage, hh, h1, h2, h3, h4, h5, h6, h7, h8, h9, decodeMaster, decodeCheckedTree,
+  have h4' : ¬ img.size < h.layout.fileLen := Nat.not_lt.mpr h4
+  simp [checkImage, hh, h1, h2, h3, h4', h5, h6, h7, h8, h9, decodeMaster, decodeCheckedTree,
     pagesDisjoint, firstOverlap, bind, Except.bind, pure, Except.pure]
 
 /-- a database image with an empty data master tree and an empty system master tree passes the
 whole-image check, so the hypothesis of `c10_image_ok` is satisfiable -/
 theorem emptyDb_ok : checkImage emptyDb 320 [] = .ok () :=
   checkImage_null_roots emptyDb 320 emptyHeader _ emptyDb_header rfl (by decide) (by decide)
-    (by rw [emptyDb_size]; rfl) slot0_checksum slot0_decode rfl rfl rfl
+    (by rw [emptyDb_size]; exact Nat.le_refl _) slot0_checksum slot0_decode rfl rfl rfl
 
 end Example
 end Redb.Format
